@@ -172,21 +172,58 @@ def report(ctx, d, path, verdict, what, seed):
                         "tier": ctx.tier, "events": sl}, summary)
 
 
+CHUNK = 20000
+
+
+def split_trace(ctx, path, name):
+    """Cuts a trace at `reset` events into files of at most ~CHUNK events (a group is never split)."""
+    out, cur, n = [], [], 0
+    with open(path) as f:
+        lines = f.read().splitlines()
+    for ln in lines:
+        if ln.startswith('{"a":"reset"') and n >= CHUNK:
+            out.append(cur)
+            cur, n = [], 0
+        cur.append(ln)
+        n += 1
+    if cur:
+        out.append(cur)
+    files = []
+    for i, c in enumerate(out):
+        p = ctx.path("%s_c%d.ndjson" % (name, i))
+        with open(p, "w") as f:
+            f.write("\n".join(c) + "\n")
+        files.append(p)
+    return files
+
+
 def validate_all(ctx, d, traces, seed, tag="t"):
-    results = [None] * len(traces)
+    files = []
+    for i, (tp, _) in enumerate(traces):
+        files += split_trace(ctx, tp, "%s%d" % (tag, i))
+    results = [None] * len(files)
+    nxt = [0]
+    lock = threading.Lock()
 
-    def work(i):
-        try:
-            results[i] = tlc_trace(ctx, d, traces[i][0], "%s%d" % (tag, i))
-        except Exception as e:  # noqa: BLE001
-            results[i] = e
+    def work():
+        while True:
+            with lock:
+                i = nxt[0]
+                nxt[0] += 1
+            if i >= len(files):
+                return
+            try:
+                results[i] = tlc_trace(ctx, d, files[i], "%s_%d" % (tag, i))
+            except Exception as e:  # noqa: BLE001
+                results[i] = e
 
-    th = [threading.Thread(target=work, args=(i,)) for i in range(len(traces))]
+    th = [threading.Thread(target=work) for _ in range(min(8, len(files)))]
     for t in th:
         t.start()
     for t in th:
         t.join()
     ok = True
+    reported = 0
     for i, v in enumerate(results):
         if isinstance(v, Exception):
             raise v
@@ -194,7 +231,9 @@ def validate_all(ctx, d, traces, seed, tag="t"):
             ctx.traces += v[1]
         else:
             ok = False
-            report(ctx, d, traces[i][0], v, "%s%d" % (tag, i), seed)
+            if reported < 4:
+                report(ctx, d, files[i], v, "%s_%d" % (tag, i), seed)
+                reported += 1
     return ok
 
 
